@@ -105,6 +105,16 @@ Proof.
   rewrite R2. destruct b; reflexivity.
 Qed.
 
+Lemma load_binding_ext d d' ids x : cext d d' -> load_binding d ids = Some x -> load_binding d' ids = Some x.
+Proof.
+  intros E H. unfold load_binding in *.
+  destruct (mapM (load_target d) (fst ids)) as [ts|] eqn:Et; [|discriminate].
+  destruct (mapM (load_filter d) (snd ids)) as [fs|] eqn:Ef; [|discriminate].
+  rewrite (mapM_impl _ (load_target d') _ _ (fun a y _ Ha => load_target_ext _ _ a y E Ha) Et).
+  rewrite (mapM_impl _ (load_filter d') _ _ (fun a y _ Ha => load_filter_ext _ _ a y E Ha) Ef).
+  exact H.
+Qed.
+
 (* later saves never change what stored ids load to *)
 Theorem binding_kept b d ids x : load_binding d ids = Some x -> load_binding (snd (save_binding b d)) ids = Some x.
 Proof.
